@@ -45,8 +45,19 @@ def specs(tier):
                  init=[['open', PR1, 'development/4.3'],
                        ['open', PR2, 'development/5.1'],
                        ['eval_pr', 1], ['eval_pr', 2]]),
+            # a developer commits on an integration branch (3 targets)
+            spec('skipq-D3-manual', 'D3', 'development/4.3', None, skip=True,
+                 depth=4, statuses_q=['SUCCESSFUL'], manual=['commit'],
+                 init=[['open', PR1, 'development/4.3'], ['eval_pr', 1]]),
         ]
-    out = []
+    out = [spec('skipq-D3-manual', 'D3', 'development/4.3', None, skip=True,
+                depth=7, statuses_q=['SUCCESSFUL', 'FAILED'],
+                manual=['commit', 'revert'], pushes=1,
+                init=[['open', PR1, 'development/4.3'], ['eval_pr', 1]]),
+           spec('q-D3-manual', 'D3', 'development/4.3', None,
+                depth=7, statuses_q=['SUCCESSFUL', 'FAILED'],
+                manual=['commit', 'revert'],
+                init=[['open', PR1, 'development/4.3'], ['eval_pr', 1]])]
     for layout, d1, d2 in [('D2', 'development/4.3', 'development/5.1'),
                            ('D2', 'development/4.3', 'development/4.3'),
                            ('S3', 'stabilization/4.3.18', 'development/4.3'),
